@@ -13,7 +13,7 @@ from bubus import BaseEvent, EventBus  # noqa: E402
 
 LEVEL = 'model_checking'
 RULE = ('event streams of length <= 3 (thorough 4) over {T1 v=0, T1 v=1, T2 v=1} dispatched by main with environment waits in between; 1-2 concurrent expect() calls drawn from a menu of '
-        '(type by class or by name, include / exclude / deprecated predicate in {default, explicit None, v==1, raises}, timeout in {None, 0.5}); calls start before the stream or after its first '
+        '(type by class, by name or the wildcard "*", include / exclude / deprecated predicate in {default, explicit None, v==1, raises}, timeout in {None, 0.5}); calls start before the stream or after its first '
         'event; an external canceller cancels the first call after 0-2 waits; calls still pending at the end are cancelled by the harness. Processing order comes from a sync probe handler '
         'registered before any expect(). all schedules <= L deviations. non-trivial = an expect call was pending while at least one event of its type was processed; distinct = recorder traces')
 ASSUMPTIONS = ['an event processed at the very instant of the deadline (|dt| < 1 us) may or may not be seen',
@@ -53,6 +53,8 @@ MENU = [
     ('T1', 'str', 'default', 'is1', 'default', 0.5),   # 9: same type/timeout as 1, complementary filter
     ('T1', 'cls', 'is1', 'default', 'none', 0.5),      # 10: predicate=None passed explicitly (the README's documented default)
     ('T1', 'str', 'default', 'default', 'none', None),  # 11
+    ('*', 'str', 'is1', 'default', 'default', 0.5),     # 12: wildcard expect: any event type (its temporary handler sits in the '*' list, beside typed subscriptions)
+    ('*', 'str', 'default', 'default', 'default', None),  # 13
 ]
 
 
@@ -209,7 +211,7 @@ def families(tier):
         streams += list(itertools.product(letters, repeat=n))
     if deep:
         streams += [st for st in itertools.product(letters, repeat=4) if st[0] == ('T1', 0) and st[3] != ('T2', 1)]
-    call_sets = [(i,) for i in range(8)] + [(10,), (11,), (10, 0), (0, 1), (1, 2), (3, 4), (0, 5), (2, 6), (1, 7), (4, 0), (0, 8), (8, 0), (1, 9), (9, 1)]
+    call_sets = [(i,) for i in range(8)] + [(10,), (11,), (10, 0), (12,), (13,), (12, 0), (0, 1), (1, 2), (3, 4), (0, 5), (2, 6), (1, 7), (4, 0), (0, 8), (8, 0), (1, 9), (9, 1)]
     for stream in streams:
         for calls in call_sets:
             if len(calls) == 2 and len(stream) > (3 if deep else 2):
@@ -243,7 +245,7 @@ def trigger(spec, res):
     for i, b in begins.items():
         typ = MENU[sp['calls'][i]][0]
         e = ends.get(i, 10 ** 9)
-        if any(r[2] == 'processed' and r[4] == typ and b < r[0] < e for r in log):
+        if any(r[2] == 'processed' and typ in (r[4], '*') and b < r[0] < e for r in log):
             return True
     return False
 
@@ -302,11 +304,11 @@ def oracle(spec, res):
         kind, what = e[4], e[5]
         cancels = [r for r in log if r[2] == 'cancel' and r[3] == i and b[0] < r[0] < e[0]]
         deadline = None if tmo is None else b[1] + tmo
-        cands = [r for r in log if r[2] == 'processed' and r[4] == typ and r[0] > b[0] and r[0] < e[0]]
-        if sp.get('slow') and typ == 'T1':
-            # the temporary handler's turn comes after the slow handler of the same event: use that instant
+        cands = [r for r in log if r[2] == 'processed' and typ in (r[4], '*') and r[0] > b[0] and r[0] < e[0]]
+        if sp.get('slow') and typ in ('T1', '*'):
+            # the temporary handler's turn comes after the slow handler of the same (T1) event: use that instant
             done = {r[3]: r for r in log if r[2] == 'slow-done'}
-            cands = [(done[r[3]][0], done[r[3]][1], 'processed', r[3], r[4], r[5]) for r in cands if r[3] in done and done[r[3]][0] < e[0]]
+            cands = [r if r[4] != 'T1' else (done[r[3]][0], done[r[3]][1], 'processed', r[3], r[4], r[5]) for r in cands if r[4] != 'T1' or (r[3] in done and done[r[3]][0] < e[0])]
         matches = [r for r in cands if _passes(cfgm, r[5])]
         first = matches[0] if matches else None
         tagd = dict(outcome=kind, filters='+'.join(cfgm[2:5]))
